@@ -8,3 +8,5 @@ import SamVerif.Props.C18
 import SamVerif.Props.C17
 import SamVerif.Props.C19
 import SamVerif.Props.C14
+import SamVerif.Props.C15
+import SamVerif.Props.C06
